@@ -120,6 +120,7 @@ type loopInst struct {
 	bgListed    bool
 	lsTxnID     uint64               // id Lightning Stream's latest own transaction was opened with
 	echo        bool                 // a Store without a preceding application change or start-up (C10)
+	earlyUpload bool                 // a Store while the own newest snapshot found at start-up is not merged yet (C05)
 	startNewest map[string]time.Time // newest snapshot per other instance when the loop started (C16 run-once)
 }
 
@@ -573,6 +574,9 @@ func init() {
 			t.appSinceStore = false
 		}
 		if l.at == "send.stored" {
+			if waitingForOwn(l) {
+				l.earlyUpload = true
+			}
 			t.stores++
 			if !t.coveredBySend && !t.startupStore {
 				l.echo = true
